@@ -27,11 +27,17 @@ pub struct Config {
     pub variants: Vec<(&'static str, &'static str)>,
     /// Gallina boolean equality used for `==`
     pub eq: &'static str,
+    /// what `mem::take` leaves behind (the Default of the places it is used on)
+    pub take_default: &'static str,
 }
 
 pub struct Tr<'c> {
     pub cfg: &'c Config,
     pub missing: Vec<String>,
+    /// `mem::take(&mut P)` met while translating the current statement: (fresh name, place).  The
+    /// statement is prefixed with `let fresh := P in let P := <default> in`.
+    takes: Vec<(String, String)>,
+    fresh: usize,
 }
 
 fn squash(t: impl ToTokens) -> String {
@@ -90,7 +96,7 @@ fn bind(vars: &[String], rhs: &str, rest: &str) -> String {
 
 impl<'c> Tr<'c> {
     pub fn new(cfg: &'c Config) -> Self {
-        Tr { cfg, missing: vec![] }
+        Tr { cfg, missing: vec![], takes: vec![], fresh: 0 }
     }
 
     fn miss(&mut self, what: String) -> String {
@@ -131,9 +137,24 @@ impl<'c> Tr<'c> {
             },
             Expr::Call(c) => {
                 let f = squash(&c.func);
+                if (f == "mem::take" || f == "std::mem::take") && c.args.len() == 1 {
+                    return match place_name(&c.args[0]) {
+                        Some(p) => {
+                            self.fresh += 1;
+                            let t = format!("taken_{}", self.fresh);
+                            self.takes.push((t.clone(), p));
+                            t
+                        }
+                        None => self.miss(format!("mem::take of `{}`", squash(&c.args[0]))),
+                    };
+                }
                 let args: Vec<String> = c.args.iter().map(|a| self.expr(a)).collect();
-                match self.cfg.calls.iter().find(|(k, _)| *k == f) {
-                    Some((_, g)) => fill(g, "", &args),
+                if let Some((_, g)) = self.cfg.calls.iter().find(|(k, _)| *k == f) {
+                    return fill(g, "", &args);
+                }
+                // a closure stored in a field or local: `(self.mapping_fn)(x)`
+                match place_name(&c.func) {
+                    Some(p) => format!("({p} {})", args.join(" ")),
                     None => self.miss(format!("call of `{f}`")),
                 }
             }
@@ -164,8 +185,24 @@ impl<'c> Tr<'c> {
                 if let Some((_, _, vars)) = self.cfg.state_calls.iter().find(|(k, _, _)| *k == name) {
                     out.extend(vars.iter().map(|v| (*v).to_string()));
                 }
+                self.assigned_expr(&m.receiver, out);
+                for a in &m.args {
+                    self.assigned_expr(a, out);
+                }
             }
             Expr::Try(t) => self.assigned_expr(&t.expr, out),
+            Expr::Call(c) => {
+                let f = squash(&c.func);
+                if (f == "mem::take" || f == "std::mem::take") && c.args.len() == 1 {
+                    if let Some(p) = place_name(&c.args[0]) {
+                        out.insert(p);
+                    }
+                }
+                for a in &c.args {
+                    self.assigned_expr(a, out);
+                }
+            }
+            Expr::Reference(r) => self.assigned_expr(&r.expr, out),
             Expr::Assign(a) => {
                 if let Some(p) = place_name(&a.left) {
                     out.insert(p);
@@ -179,9 +216,20 @@ impl<'c> Tr<'c> {
             }
             Expr::Block(b) => self.assigned_block(&b.block, out),
             Expr::Match(m) => {
+                // `match PLACE { Some(ref mut x) => .. }`: mutating the payload mutates the place
+                let payload = m.arms.iter().find_map(|a| some_binding(&a.pat));
+                let mut inner = BTreeSet::new();
                 for a in &m.arms {
-                    self.assigned_expr(&a.body, out);
+                    self.assigned_expr(&a.body, &mut inner);
                 }
+                if let Some(x) = payload {
+                    if inner.remove(&x) {
+                        if let Some(p) = place_name(&m.expr) {
+                            out.insert(p);
+                        }
+                    }
+                }
+                out.extend(inner);
             }
             Expr::Paren(p) => self.assigned_expr(&p.expr, out),
             _ => {}
@@ -196,6 +244,9 @@ impl<'c> Tr<'c> {
                 Stmt::Local(l) => {
                     if let Pat::Ident(pi) = &l.pat {
                         locals.insert(sanitize(&pi.ident.to_string()));
+                    }
+                    if let Some(init) = &l.init {
+                        self.assigned_expr(&init.expr, &mut inner);
                     }
                 }
                 Stmt::Expr(e, _) => self.assigned_expr(e, &mut inner),
@@ -231,11 +282,21 @@ impl<'c> Tr<'c> {
                 let Some(init) = &l.init else {
                     return self.miss(format!("let without initialiser `{name}`"));
                 };
+                // `let _result = self.state_call();` -- the (infallible) result is dropped, the state changes
+                if name.starts_with('_') {
+                    if let Expr::MethodCall(m) = &*init.expr {
+                        if self.cfg.state_calls.iter().any(|(k, _, _)| *k == m.method.to_string()) {
+                            let k = self.stmts(rest, scope, ret);
+                            return self.stmt_then(&init.expr, scope, k);
+                        }
+                    }
+                }
                 let rhs = self.expr(&init.expr);
+                let takes = std::mem::take(&mut self.takes);
                 scope.push(name.clone());
                 let k = self.stmts(rest, scope, ret);
                 scope.pop();
-                format!("let {name} := {rhs} in\n{k}")
+                self.with_takes(takes, format!("let {name} := {rhs} in\n{k}"))
             }
             Stmt::Expr(e, semi) => {
                 // a trailing expression without `;` that is not a statement form is the block's value: only `()` accepted
@@ -247,15 +308,39 @@ impl<'c> Tr<'c> {
                     }
                     return self.miss(format!("block value `{}`", squash(e)));
                 }
-                let head = self.stmt_expr(e, scope);
-                let k = self.stmts(rest, scope, ret);
-                match head {
-                    Some((vars, rhs)) => bind(&vars, &rhs, &k),
-                    None => k,
+                // guard: `if C { return Ok(()); }` -- the rest runs only when C is false
+                if let Expr::If(i) = e {
+                    if i.else_branch.is_none() && is_return_ok_unit(&i.then_branch) {
+                        let c = self.expr(&i.cond);
+                        let k = self.stmts(rest, scope, ret);
+                        return format!("if {c} then\n{}\nelse\n{k}", tuple(ret));
+                    }
                 }
+                let k = self.stmts(rest, scope, ret);
+                self.stmt_then(e, scope, k)
             }
             other => self.miss(format!("statement `{}`", squash(other))),
         }
+    }
+
+    /// `let fresh := P in let P := default in term` for every hoisted `mem::take(&mut P)`
+    fn with_takes(&mut self, takes: Vec<(String, String)>, term: String) -> String {
+        let mut t = term;
+        for (fresh, place) in takes.into_iter().rev() {
+            t = format!("let {fresh} := {place} in\nlet {place} := {} in\n{t}", self.cfg.take_default);
+        }
+        t
+    }
+
+    /// the expression statement `e` followed by the (already translated) continuation `k`
+    fn stmt_then(&mut self, e: &Expr, scope: &mut Vec<String>, k: String) -> String {
+        let head = self.stmt_expr(e, scope);
+        let takes = std::mem::take(&mut self.takes);
+        let body = match head {
+            Some((vars, rhs)) => bind(&vars, &rhs, &k),
+            None => k,
+        };
+        self.with_takes(takes, body)
     }
 
     /// one expression statement -> (re-bound variables, Gallina term computing their tuple)
@@ -304,35 +389,67 @@ impl<'c> Tr<'c> {
             Expr::Match(m) => {
                 let w = self.writes(e, scope);
                 let scrut = self.expr(&m.expr);
+                let place = place_name(&m.expr);
                 let mut arms = String::new();
                 for a in &m.arms {
                     if a.guard.is_some() {
                         arms.push_str(&self.miss(format!("match guard in `{}`", squash(&a.pat))));
                     }
-                    let mut pats = vec![];
-                    collect_variants(&a.pat, &mut pats);
-                    let mut cons = vec![];
-                    for p in pats {
-                        match self.cfg.variants.iter().find(|(k, _)| *k == p) {
-                            Some((_, g)) => cons.push((*g).to_string()),
-                            None => cons.push(if p == "_" { "_".to_string() } else { self.miss(format!("match pattern `{p}`")) }),
+                    // `Some(ref mut x)`: x is a variable of the arm; the place becomes `Some x` afterwards
+                    let payload = some_binding(&a.pat);
+                    let (cons, ret): (String, Vec<String>) = if let Some(x) = &payload {
+                        let ret = w.iter().map(|v| if Some(v) == place.as_ref() { format!("(Some {x})") } else { v.clone() }).collect();
+                        (format!("Some {x}"), ret)
+                    } else {
+                        let mut pats = vec![];
+                        collect_variants(&a.pat, &mut pats);
+                        let mut cons = vec![];
+                        for p in pats {
+                            match self.cfg.variants.iter().find(|(k, _)| *k == p) {
+                                Some((_, g)) => cons.push((*g).to_string()),
+                                None => cons.push(if p == "_" || p == "None" { p } else { self.miss(format!("match pattern `{p}`")) }),
+                            }
                         }
+                        (cons.join(" | "), w.clone())
+                    };
+                    if let Some(x) = &payload {
+                        scope.push(x.clone());
                     }
                     let body = match &*a.body {
-                        Expr::Block(b) => self.stmts(&b.block.stmts, scope, &w),
-                        Expr::Tuple(t) if t.elems.is_empty() => tuple(&w),
-                        other => match self.stmt_expr(other, scope) {
-                            Some((vars, rhs)) => bind(&vars, &rhs, &tuple(&w)),
-                            None => tuple(&w),
-                        },
+                        Expr::Block(b) => self.stmts(&b.block.stmts, scope, &ret),
+                        Expr::Tuple(t) if t.elems.is_empty() => tuple(&ret),
+                        Expr::Call(c) if squash(c) == "Ok(())" => tuple(&ret),
+                        other => {
+                            let k = tuple(&ret);
+                            self.stmt_then(other, scope, k)
+                        }
                     };
-                    arms.push_str(&format!("| {} =>\n{body}\n", cons.join(" | ")));
+                    if payload.is_some() {
+                        scope.pop();
+                    }
+                    arms.push_str(&format!("| {cons} =>\n{body}\n"));
                 }
                 Some((w, format!("(match {scrut} with\n{arms}end)")))
             }
             other => Some((vec![], self.miss(format!("statement `{}`", squash(other))))),
         }
     }
+}
+
+/// `Some(ref mut x)` / `Some(x)` -> x
+fn some_binding(p: &Pat) -> Option<String> {
+    if let Pat::TupleStruct(ts) = p {
+        if ts.path.segments.last().is_some_and(|s| s.ident == "Some") && ts.elems.len() == 1 {
+            if let Pat::Ident(i) = &ts.elems[0] {
+                return Some(sanitize(&i.ident.to_string()));
+            }
+        }
+    }
+    None
+}
+
+fn is_return_ok_unit(b: &Block) -> bool {
+    b.stmts.len() == 1 && squash(&b.stmts[0]) == "returnOk(());"
 }
 
 fn collect_variants(p: &Pat, out: &mut Vec<String>) {
